@@ -14,3 +14,19 @@ macro "gen_fallback" : tactic => `(tactic| (intro h; exact absurd h (by decide))
 macro "gen_guard" " => " t:tacticSeq : tactic => `(tactic| first | gen_fallback | (intro _; ($t)))
 
 end Op2.GenTactics
+
+/-! ### `x % 2^n` is a ring homomorphism: nested reductions collapse to the outermost one, whatever the association -/
+namespace Op2.GenTactics
+theorem emod_mul_l (a b M : Int) : (a % M * b) % M = (a * b) % M := by
+  rw [Int.mul_emod, Int.emod_emod_of_dvd _ (Int.dvd_refl M), ← Int.mul_emod]
+theorem emod_mul_r (a b M : Int) : (a * (b % M)) % M = (a * b) % M := by
+  rw [Int.mul_emod, Int.emod_emod_of_dvd _ (Int.dvd_refl M), ← Int.mul_emod]
+theorem emod_add_l (a b M : Int) : (a % M + b) % M = (a + b) % M := by
+  rw [Int.add_emod, Int.emod_emod_of_dvd _ (Int.dvd_refl M), ← Int.add_emod]
+theorem emod_add_r (a b M : Int) : (a + b % M) % M = (a + b) % M := by
+  rw [Int.add_emod, Int.emod_emod_of_dvd _ (Int.dvd_refl M), ← Int.add_emod]
+theorem emod_sub_l (a b M : Int) : (a % M - b) % M = (a - b) % M := by
+  rw [Int.sub_emod, Int.emod_emod_of_dvd _ (Int.dvd_refl M), ← Int.sub_emod]
+theorem emod_sub_r (a b M : Int) : (a - b % M) % M = (a - b) % M := by
+  rw [Int.sub_emod, Int.emod_emod_of_dvd _ (Int.dvd_refl M), ← Int.sub_emod]
+end Op2.GenTactics
